@@ -310,6 +310,7 @@ func (r *LayerManager) resolveLayer(ctx context.Context, refspec reference.Spec,
 	} else {
 		l.Done() // layer is already cached. use the cached one instead. discard this layer.
 	}
+	verifAfterCacheLayer(key) // no-op unless built with -tags verif
 
 	return nil
 }
